@@ -96,7 +96,7 @@ def holiday_dates(y):
 
 #: themed histories hammer one family of objects: ranges of the op selector `k` in gen_op
 THEMES = {'cal': (22, 30), 'date': (10, 21), 'bond': (69, 79), 'rates': (84, 99), 'equity': (35, 54), 'curve': (58, 68),
-          'tree': (80, 95)}
+          'tree': (80, 83), 'options': (91, 99)}
 
 
 # --------------------------------------------------------------------------------------------- pool
@@ -188,12 +188,21 @@ def make_pool(rng):
         'eqAe': new('EquityAmericanOption', D(exp), K, E('OptionTypes', 'EUROPEAN_PUT')),
         'fxC': new('FXVanillaOption', D(exp), 1.1, 'EURUSD', E('OptionTypes', 'EUROPEAN_CALL'), 1e6, 'USD'),
         'fxP': new('FXVanillaOption', D(exp), 1.05, 'EURUSD', E('OptionTypes', 'EUROPEAN_PUT'), 1e6, 'EUR', 2),
+        # credit: one CDS valued on two dates against issuer curves anchored on each
+        'cdsA': new('CDSCurve', R('vd'), ['L', [new('CDS', R('vd'), tn, sp) for tn, sp in (('1Y', 0.008), ('3Y', 0.011), ('5Y', 0.014))]],
+                    R('cfA'), 0.4),
+        'cds2': new('CDSCurve', R('vd2'), ['L', [new('CDS', R('vd2'), tn, sp) for tn, sp in (('1Y', 0.009), ('3Y', 0.012), ('5Y', 0.015))]],
+                    R('cf2'), 0.4),
+        'cds': new('CDS', R('vd'), '5Y', 0.01),
+        'heston': new('Heston', 0.04, 1.5, 0.05, 0.4, -0.6),
         'krates': ['L', [round(rA + 0.001 * i, 5) for i in range(2)]],
         'ktenors': ['A', [1.0, 3.0]],
         'qdates': ['L', [D(mplus(vd, k)) for k in (1, 7, 13, 30)]],
         'spots': ['A', [80.0, 100.0, 123.5]],
     }
-    facts = {'vd': vd, 'vd2': vd2, 'st': st, 'lag': lag, 'issue': issue, 'mat': mat, 'exp': exp, 'K': K, 'rA': rA,
+    nper = {'ANNUAL': 12, 'SEMI_ANNUAL': 6, 'QUARTERLY': 3}[bfreq]
+    cpn_dates = [mplus(issue, nper * j) for j in range(1, 200) if mplus(issue, nper * j) <= mat]
+    facts = {'cpn_dates': cpn_dates, 'vd': vd, 'vd2': vd2, 'st': st, 'lag': lag, 'issue': issue, 'mat': mat, 'exp': exp, 'K': K, 'rA': rA,
              'sched': {'eff': seff, 'term': sterm, 'cal': scal, 'conv': sconv, 'rule': srule, 'adjust': sadj},
              'bond2_mat': mplus(mat, 24), 'ex1': ex1, 'swm': swm}
     return p, facts
@@ -299,6 +308,11 @@ def gen_op(rng, f, state):
         v, c1, c2 = mkt()
         return OP(o, 'value', [v, spot(), c1, c2, R(rng.choice(['bsD', 'bsD', 'bsT', 'bsB']))],
                   cls='EquityAmericanOption', tag='eq', fam='A' if o == 'eqAm' else 'E')
+    if k < 55 and rng.random() < 0.3:
+        # one Heston model, a ladder of spots / rates (Monte Carlo with a fixed seed is deterministic)
+        return OP('heston', 'value_mc', [R('vd'), R(rng.choice(['eqC', 'eqP'])), float(rng.choice([80, 100, 120])),
+                                        rng.choice([0.01, 0.05]), rng.choice([0.0, 0.02]), 500, 20, rng.choice([42, 7])],
+                  cls='Heston', tag='heston')
     if k < 55:
         m = rng.choice(['value', 'delta', 'gamma', 'vega', 'theta'])
         v, c1, c2 = mkt()
@@ -337,6 +351,10 @@ def gen_op(rng, f, state):
         mat = f['mat'] if b == 'bond' else f['bond2_mat']
         s = rng.choice([R('vd'), R('vd'), R('vd2'), D(dplus(vd, rng.randint(0, 300))), D(mat), D(dplus(mat, rng.choice([1, 40]))),
                         D(dplus(mat, -rng.randint(1, 200))), D(f['issue'])])
+        if b == 'bond' and rng.random() < 0.3:
+            # on / just before / just after a coupon date (a call inside a period, then on the date closing it)
+            cd = rng.choice([c for c in f['cpn_dates'] if c >= vd] or f['cpn_dates'])
+            s = D(dplus(cd, rng.choice([0, 0, -1, 1, -30])))
         conv = E('YTMCalcType', rng.choice(['UK_DMO', 'US_STREET', 'US_TREASURY']))
         y = rng.choice([0.01, 0.035, 0.08])
         px = rng.choice([92.5, 100.0, 108.25])
@@ -359,12 +377,14 @@ def gen_op(rng, f, state):
         return OP(b, m, a, cls='Bond', tag='bond')
     if k < 84:
         if rng.random() < 0.6:
-            return OP('beo', 'value', [rng.choice([R('vd'), R('vd2')]), R(rng.choice(['cfA', 'cf2', 'ibc'])),
-                                      R(rng.choice(['hw', 'bk', 'hwJ']))], cls='BondEmbeddedOption', tag='tree')
+            # one tree model reused for several curves on the same time grid (same settlement date)
+            return OP('beo', 'value', [rng.choice([R('vd'), R('vd'), R('vd2')]), R(rng.choice(['cfA', 'cfB', 'cf2', 'ibc'])),
+                                      R(rng.choice(['hw', 'hw', 'bk', 'hwJ']))], cls='BondEmbeddedOption', tag='tree')
         mdl = rng.choice(['hw', 'bk', 'bdt', 'hwJ'])
         tm = rng.choice([3.0, 5.0])
         return OP(None, 'tree_build_query',
-                  [R(mdl), tm, ['A', [0.0, 1.0, 5.0, 10.0]], ['A', [1.0, 0.97, 0.86, 0.74]], 1.0, rng.choice([95.0, 102.0]), 100.0,
+                  [R(mdl), tm, ['A', [0.0, 1.0, 5.0, 10.0]], ['A', rng.choice([[1.0, 0.97, 0.86, 0.74], [1.0, 0.99, 0.95, 0.90]])],
+                   1.0, rng.choice([95.0, 102.0]), 100.0,
                    ['A', [0.5, 1.0, 1.5, 2.0, 2.5, 3.0]], ['A', [2.0] * 6], E('FinExerciseTypes', rng.choice(['EUROPEAN', 'AMERICAN']))],
                   cls={'hw': 'HWTree', 'hwJ': 'HWTree', 'bk': 'BKTree', 'bdt': 'BDTTree'}[mdl], meth='build_tree+bond_option',
                   tag='tree')
@@ -386,6 +406,10 @@ def gen_op(rng, f, state):
         if m != 'pv01' and rng.random() < 0.5:
             a.append(rng.choice([R('cfC'), R('cfD')]))
         return OP('swap', m, a, cls='IborSwap', tag='leg')
+    if k < 96 and rng.random() < 0.35:
+        v, ic = rng.choice([('vd', 'cdsA'), ('vd', 'cdsA'), ('vd2', 'cds2')])
+        m = rng.choice(['value', 'risky_pv01', 'par_spread', 'premium_leg_pv', 'prot_leg_pv'])
+        return OP('cds', m, [R(v), R(ic)], cls='CDS', tag='cds')
     if k < 96:
         mdl = rng.choice(['blk', 'blk', 'hw', 'hwJ', 'bk', 'bdt'])
         if rng.random() < 0.2:
@@ -583,48 +607,22 @@ class Predictor:
 # --------------------------------------------------------------------------------------------- classifiers
 def classify(h, i, a, b):
     """finding id for a result that differs between the shared history (a) and fresh objects (b), from the
-    failing op AND the earlier ops of the history; None = not a listed exception"""
+    failing op AND the earlier ops of the history; None = not a listed exception.  Only the two OPEN findings have a
+    classifier; the five defects repaired in /repo (BlackScholes DEFAULT, Bond pcd/ncd, key_rate_durations rates,
+    caplet day counter, deposits list) have none: a recurrence is a VIOLATION."""
     ops, f, pool = h['ops'], h['facts'], h['pool']
     op = ops[i]
     prev = ops[:i]
     mine = touched(pool, op)
-    # 1. DEFAULT BlackScholes resolved in place by the first exercise family priced THROUGH BlackScholes.value
-    #    (BlackScholes.value itself, EquityAmericanOption.value; EquityVanillaOption / FXVanillaOption only read the volatility)
-    def through_value(o):
-        return o.get('cls') in ('BlackScholes', 'EquityAmericanOption') and o.get('fam') and 'bsD' in touched(pool, o)
-    if through_value(op):
-        fams = [o['fam'] for o in prev if through_value(o)]
-        if any(x != op['fam'] for x in fams):      # (an earlier call may have failed before reaching the model)
-            # European first: the model is ANALYTICAL and refuses American options; American first: the model is
-            # CRR_TREE and prices European options on the tree (which also rejects arrays of spots)
-            if (op['fam'] == 'A' and a == 'E:FinError') or (op['fam'] == 'E' and not str(b).startswith('E:')):
-                return 'C18/bs-default-resolved-in-place'
     # 2. Schedule.generate() called again re-anchors on the adjusted termination date (C16/regenerate-reanchors)
     if op['tag'] == 'sched':
         ngen = sum(1 for o in prev if o['tag'] == 'sched' and o['m'] in ('generate', 'schedule_dts'))
         s = f['sched']
         if s['adjust'] and f.get('sched_term_moves') and ngen >= 1:
             return 'C18/schedule-regenerate-reanchors'
-    # 3. Bond: no coupon date after the settlement date -> previous/next coupon dates of the PREVIOUS call are used
-    if op['tag'] == 'bond' and op['o'] in ('bond', 'bond2'):
-        mat = f['mat'] if op['o'] == 'bond' else f['bond2_mat']
-        s = op['a'][0]
-        sd = f['vd'] if s == ['ref', 'vd'] else f['vd2'] if s == ['ref', 'vd2'] else tuple(s[1:4])
-        if (sd[2], sd[1], sd[0]) >= (mat[2], mat[1], mat[0]) and any(o.get('o') == op['o'] for o in prev):
-            return 'C18/bond-stale-coupon-dates-at-maturity'
-    # 4. key_rate_durations shifts the caller's `rates` in place
-    if op['tag'] == 'bond-krd' and 'krates' in mine and any(o['tag'] == 'bond-krd' and 'krates' in touched(pool, o) for o in prev):
-        return 'C18/key-rate-durations-mutates-rates'
     # 5. holiday_* called directly reads weekday/day_in_year left by the last is_holiday
     if op['tag'] == 'cal-direct' and op['m'] not in ('holiday_weekend', 'holiday_none'):
         return 'C18/calendar-holiday-direct-call'
-    # 6. value_caplet_floor_let called directly needs the day counter created by value()
-    if op['tag'] == 'caplet-direct' and b == 'E:AttributeError':
-        return 'C18/caplet-direct-needs-prior-value'
-    # 7. curve construction inserted a synthetic deposit into the caller's list
-    if op['tag'] == 'inputs' and op['a'][0] == ['ref', 'depos'] and f['lag'] > 0 and \
-            any(('depos' in touched(pool, o)) and o['tag'] != 'inputs' for o in prev):
-        return 'C18/deposits-list-mutated'
     return None
 
 
@@ -1023,7 +1021,8 @@ def all_witnesses():
 
 
 def witnesses(ctx, ws, A, B, base):
-    """the witness history of every listed exception is replayed on the implementation on every run"""
+    """the witness history of every finding, open or repaired, is replayed on the implementation on every run: an open
+    one must still show its history dependence (else the entry is stale), a repaired one must not (else VIOLATION)"""
     for k, (fid, h, i) in enumerate(ws):
         a, b = A['results'][base + k][i], B['results'][base + k][i]
         if a != b:
@@ -1032,7 +1031,7 @@ def witnesses(ctx, ws, A, B, base):
                           {'history': [show(o) for o in h['ops'][:i + 1]], 'result_after_history': a, 'result_on_fresh_objects': b,
                            'replay': {'pool': h['pool'], 'ops': h['ops'][:i + 1], 'facts': h['facts']}},
                           finding=fnd if fnd == fid else None, clause='result')
-        else:
+        elif fid in ctx.known_ids:
             ctx.notes.append(f'witness history of {fid} no longer shows a history dependence (stale entry: the defect was repaired?)')
     ctx.count('witness histories of the listed exceptions', len(ws))
 
